@@ -39,7 +39,9 @@ import (
 	"github.com/siglens/siglens/pkg/dashboards"
 	esquery "github.com/siglens/siglens/pkg/es/query"
 	eswriter "github.com/siglens/siglens/pkg/es/writer"
+	"github.com/siglens/siglens/pkg/integrations/splunk"
 	"github.com/siglens/siglens/pkg/lookups"
+	"github.com/siglens/siglens/pkg/otlp"
 	"github.com/siglens/siglens/pkg/scroll"
 	"github.com/siglens/siglens/pkg/segment/aggregations"
 	"github.com/siglens/siglens/pkg/segment/memory/limit"
@@ -53,6 +55,11 @@ import (
 	vtable "github.com/siglens/siglens/pkg/virtualtable"
 	log "github.com/sirupsen/logrus"
 	"github.com/valyala/fasthttp"
+	collogpb "go.opentelemetry.io/proto/otlp/collector/logs/v1"
+	commonpb "go.opentelemetry.io/proto/otlp/common/v1"
+	logpb "go.opentelemetry.io/proto/otlp/logs/v1"
+	resourcepb "go.opentelemetry.io/proto/otlp/resource/v1"
+	"google.golang.org/protobuf/proto"
 
 	"verifharness/vhlib"
 )
@@ -470,6 +477,9 @@ func (h *H) mkRouter() {
 	r.GET("/api/usersavedqueries/{qname}", w("qname", func(c *fasthttp.RequestCtx) { usq.SearchUserSavedQuery(c, 0) }))
 	r.PUT("/elastic/{indexName}", w("indexName", func(c *fasthttp.RequestCtx) { eswriter.ProcessPutIndex(c, 0) }))
 	r.PUT("/elastic/{indexName}/_alias/{aliasName}", w("indexName", func(c *fasthttp.RequestCtx) { eswriter.ProcessPutAliasesRequest(c, 0) }))
+	r.PUT("/elastic/{indexName}/_doc/{_id}", w("indexName", func(c *fasthttp.RequestCtx) { eswriter.ProcessPutPostSingleDocRequest(c, false, 0) }))
+	r.DELETE("/elastic/{indexName}", w("indexName", func(c *fasthttp.RequestCtx) { eswriter.ProcessDeleteIndex(c, 0) }))
+	r.POST("/api/deleteIndex/{indexName}", w("indexName", func(c *fasthttp.RequestCtx) { eswriter.ProcessDeleteIndex(c, 0) }))
 	h.rt = r
 }
 
@@ -1002,6 +1012,7 @@ func (h *H) indexSites(nc nameCase, i int) {
 	if res.Status != -1 {
 		safeObs(eff, res.Status == 200)
 	}
+	h.checkRegistered("bulk_index", nc, res)
 	for _, p := range pickSuffix(res.Diff.created, ".suffix") {
 		sid = strings.TrimSuffix(filepath.Base(p), ".suffix")
 		h.obs(fmt.Sprintf("SuffixFile %s %s", vhlib.CoqStr(eff), vhlib.CoqStr(sid)), p)
@@ -1052,6 +1063,11 @@ func (h *H) indexSites(nc nameCase, i int) {
 				h.obs(fmt.Sprintf("Mapping [] %s", vhlib.CoqStr(e2)), p)
 			}
 		}
+		if direct {
+			h.dropUnsafeRegistered()
+		} else {
+			h.checkRegistered(site, nc, res)
+		}
 	}
 	// aliases: request body (no router in front of the names) and route
 	ja := viaJSON(name)
@@ -1091,6 +1107,226 @@ func (h *H) indexSites(nc nameCase, i int) {
 	for _, p := range pickSuffix(cat(res.Diff.created, res.Diff.modified), ".json") {
 		h.obs(fmt.Sprintf("Alias [] %s", vhlib.CoqStr(e3)), p)
 	}
+}
+
+// ---------- index-name registration by every protocol entry point ----------
+// oracle-side notion of a name that must never be used as one path element
+func unsafeName(n string) bool {
+	return n == "" || n == "." || n == ".." || strings.ContainsAny(n, "/\\\x00")
+}
+
+// after an operation that may register an index: no unsafe name may be in the virtual-table
+// list (it would be a latent escape for every later operation that builds a path from the list)
+func (h *H) checkRegistered(site string, nc nameCase, res *opRes) {
+	names, err := vtable.GetVirtualTableNames(0)
+	if err != nil {
+		return
+	}
+	for n := range names {
+		if unsafeName(n) {
+			h.sum.Count("oracle/" + site + "_registers_unsafe_index_name")
+			failN[site+"_registers"]++
+			if failN[site+"_registers"] <= 3 {
+				h.sum.Fail(site+"_registers_unsafe_index_name", fmt.Sprintf("%s with index name %q (status %d) left %q in the virtual-table list", site, nc.Name, res.Status, n), res)
+			}
+			nn := n
+			_ = vtable.DeleteVirtualTable(&nn, 0)
+			h.last = nil
+		}
+	}
+}
+
+// handler-level calls are not judged, but what they register must not pollute later operations
+func (h *H) dropUnsafeRegistered() {
+	if names, err := vtable.GetVirtualTableNames(0); err == nil {
+		for n := range names {
+			if unsafeName(n) {
+				nn := n
+				_ = vtable.DeleteVirtualTable(&nn, 0)
+				h.last = nil
+			}
+		}
+	}
+}
+
+func (h *H) protocolSites(nc nameCase, i int) {
+	name := nc.Name
+	if name == "" || strings.ContainsAny(name, "*,:") || len(name) > 200 {
+		return
+	}
+	ja := viaJSON(name)
+	mapObs := func(res *opRes, eff string) {
+		for _, p := range pickSuffix(cat(res.Diff.created, res.Diff.modified), ".json") {
+			if strings.HasSuffix(filepath.Dir(p), "/mappings") || !h.inside(p) {
+				h.obs(fmt.Sprintf("Mapping [] %s", vhlib.CoqStr(eff)), p)
+			}
+		}
+	}
+	// Splunk HEC: "index" field of the event
+	res := h.op("hec_index", nc, false, func() (int, string) {
+		body := fmt.Sprintf(`{"index":%s,"event":"e%d","time":1700000000}`, jsonStr(name), i)
+		ctx := newCtx("POST", "", []byte(body))
+		splunk.ProcessSplunkHecIngestRequest(ctx, 0)
+		z := time.Duration(0)
+		writer.FlushWipBufferToFile(&z, &z)
+		return resp(ctx)
+	})
+	mapObs(res, ja)
+	if res.Status != -1 {
+		safeObs(ja, res.Status == 200)
+	}
+	h.checkRegistered("hec_index", nc, res)
+	// OTLP logs: resource attribute siglensIndexName
+	res = h.op("otlp_index", nc, false, func() (int, string) {
+		req := &collogpb.ExportLogsServiceRequest{ResourceLogs: []*logpb.ResourceLogs{{
+			Resource: &resourcepb.Resource{Attributes: []*commonpb.KeyValue{{Key: "siglensIndexName", Value: &commonpb.AnyValue{Value: &commonpb.AnyValue_StringValue{StringValue: name}}}}},
+			ScopeLogs: []*logpb.ScopeLogs{{LogRecords: []*logpb.LogRecord{{TimeUnixNano: 1700000000000000000, Body: &commonpb.AnyValue{Value: &commonpb.AnyValue_StringValue{StringValue: "b"}}}}}},
+		}}}
+		data, err := proto.Marshal(req)
+		if err != nil {
+			return 599, err.Error()
+		}
+		ctx := newCtx("POST", "", data)
+		ctx.Request.Header.SetContentType("application/x-protobuf")
+		otlp.ProcessLogIngest(ctx, 0)
+		z := time.Duration(0)
+		writer.FlushWipBufferToFile(&z, &z)
+		return resp(ctx)
+	})
+	h.checkRegistered("otlp_index", nc, res)
+	// ES single document: PUT /{indexName}/_doc/{id} (route parameter) and at handler level
+	for _, direct := range []bool{false, true} {
+		site := "esdoc_index"
+		if direct {
+			site = "esdoc_index_handler"
+		}
+		var eff string
+		res = h.op(site, nc, direct, func() (int, string) {
+			body := []byte(fmt.Sprintf(`{"a":%d,"timestamp":1700000000000}`, i))
+			if direct {
+				ctx := newCtx("PUT", "", body)
+				ctx.SetUserValue("indexName", name)
+				ctx.SetUserValue("_id", "1")
+				eff = name
+				eswriter.ProcessPutPostSingleDocRequest(ctx, false, 0)
+				return resp(ctx)
+			}
+			st, b := h.route("PUT", "/elastic/", name, "/_doc/1", body)
+			eff = h.param
+			return st, b
+		})
+		mapObs(res, eff)
+		if !direct {
+			h.checkRegistered(site, nc, res)
+		} else {
+			h.dropUnsafeRegistered()
+		}
+	}
+}
+
+// ---------- delete-index by pattern over an ARBITRARY virtual-table list ----------
+// The names file is what it is on a node that ran older code or synced from others: unsafe
+// names are planted directly.  A pattern that is itself a harmless single element expands to
+// them; their directories (outside the data dir, or the host directory itself for "..") must
+// survive, the directories of the safe names that match must go.
+var deleteCases []string
+
+func (h *H) deletePatternSite(r *vhlib.Rng, thorough bool) {
+	namesFile := ""
+	for p := range h.snap() {
+		if strings.HasSuffix(p, "/vtabledata/virtualtablenames.txt") {
+			namesFile = p
+		}
+	}
+	if namesFile == "" {
+		h.sum.HarnessError("virtual table names file not found")
+		return
+	}
+	final := h.data + "/" + h.host + "/final/"
+	planted := []string{"c19del_a_vd", "c19del_b", "c19del_c_victim", "../../../victim", "../../../../victim", "../../../c19_vd", "..", "../../..", "sub/../../../../c19_vd"}
+	patterns := []string{"*_vd", "*victim", "*", "c19del_b", "*..", "*nomatch"}
+	if thorough {
+		patterns = append(patterns, "*c19_vd", "*ictim", "*_b", "*d", "*m")
+	}
+	for pi, pat := range patterns {
+		for _, viaPost := range []bool{false, true} {
+			if viaPost && !thorough && pi%2 == 1 {
+				continue
+			}
+			h.restoreOutside()
+			_ = os.MkdirAll(h.sentDir(0)+"/c19_vd", 0o755)
+			_ = os.WriteFile(h.sentDir(0)+"/c19_vd/keep.txt", []byte("keep"), 0o644)
+			_ = os.MkdirAll(final+"normal2", 0o755) // keeps <host>/final alive
+			fd, err := os.OpenFile(namesFile, os.O_APPEND|os.O_WRONLY|os.O_CREATE, 0o644)
+			if err != nil {
+				h.sum.HarnessError("names file: " + err.Error())
+				return
+			}
+			for _, n := range planted {
+				_, _ = fd.WriteString(n + "\n")
+			}
+			fd.Close()
+			existed := map[string]bool{}
+			for _, n := range planted {
+				raw := final + n + "/" // the very concatenation the code performs; the kernel resolves it
+				if !unsafeName(n) {
+					_ = os.MkdirAll(raw, 0o755)
+					_ = os.WriteFile(raw+"marker.txt", []byte("m"), 0o644)
+				}
+				if st, err := os.Stat(raw); err == nil && st.IsDir() {
+					existed[n] = true
+				}
+			}
+			h.last = nil
+			all, _ := vtable.GetVirtualTableNames(0)
+			var L []string
+			for n := range all {
+				L = append(L, n)
+			}
+			sort.Strings(L)
+			nc := nameCase{pat, "main", "pattern"}
+			h.curInput = fmt.Sprintf("delete-index %s with %v in the virtual-table list", pat, planted)
+			res := h.op("delete_index_pattern", nc, false, func() (int, string) {
+				if viaPost {
+					return h.route("POST", "/api/deleteIndex/", pat, "", nil)
+				}
+				return h.route("DELETE", "/elastic/", pat, "", nil)
+			})
+			h.curInput = ""
+			if !h.hit {
+				continue
+			}
+			var obs, cl []string
+			for _, n := range planted {
+				if !existed[n] {
+					continue
+				}
+				_, err := os.Stat(final + n + "/")
+				removed := err != nil
+				obs = append(obs, fmt.Sprintf("(%s, %s)", vhlib.CoqStr(n), vhlib.CoqBool(removed)))
+				if removed && unsafeName(n) && res.Status != -1 {
+					h.sum.Count("oracle/delete_index_pattern_removed_dir_of_unsafe_name")
+					h.sum.Fail("delete_index_pattern_removed_dir_of_unsafe_name", fmt.Sprintf("delete-index %q removed the directory that the listed name %q resolves to (%s)", pat, n, filepath.Clean(final+n)), res)
+				}
+			}
+			for _, n := range L {
+				cl = append(cl, vhlib.CoqStr(n))
+			}
+			deleteCases = append(deleteCases, fmt.Sprintf("(%s, (%s, %s))", vhlib.CoqList(cl), vhlib.CoqStr(pat), vhlib.CoqList(obs)))
+			h.sum.Count("delete_index_pattern/" + pat)
+			// drop what is left of the planted names
+			if left, err := vtable.GetVirtualTableNames(0); err == nil {
+				for n := range left {
+					if unsafeName(n) || strings.HasPrefix(n, "c19del_") {
+						nn := n
+						_ = vtable.DeleteVirtualTable(&nn, 0)
+					}
+				}
+			}
+			h.last = nil
+		}
+	}
+	h.restoreOutside()
 }
 
 // Metrics.  No test-only reset is used (it races with the writer's background goroutines), so
@@ -1292,6 +1528,10 @@ func (h *H) writeSiteCases() {
 			"Definition cases : list (call * (list N * bool)) := " + vhlib.CoqListNL(h.sites[s:e]) + ".\n"
 		h.sum.WriteCaseFile(h.cfg.Out, fmt.Sprintf("cases_sites_%d", i), "From SigM Require Import Base Paths PathsCheck.\n", defs, "check_sites D H cases", e-s)
 	}
+	if len(deleteCases) > 0 {
+		defs := "Definition cases : list (list (list N) * (list N * list (list N * bool))) := " + vhlib.CoqListNL(deleteCases) + ".\n"
+		h.sum.WriteCaseFile(h.cfg.Out, "cases_delete_index", "From SigM Require Import Base Paths PathsCheck.\n", defs, "check_delete cases", len(deleteCases))
+	}
 	if len(safeGuard) > 0 {
 		defs := "Definition cases : list (list N * bool) := " + vhlib.CoqListNL(safeGuard) + ".\n"
 		h.sum.WriteCaseFile(h.cfg.Out, "cases_safe_component", "From SigM Require Import Base Paths PathsCheck.\n", defs, "check_safe cases", len(safeGuard))
@@ -1383,6 +1623,7 @@ func main() {
 		timed("usq", func() { h.usqSites(nc, i) })
 		timed("scroll", func() { h.scrollSite(nc) })
 		timed("index", func() { h.indexSites(nc, i) })
+		timed("protocols", func() { h.protocolSites(nc, i) })
 		if i%20 == 0 {
 			sum.Sample(map[string]interface{}{"name": nc.Name, "stream": nc.Stream, "kind": nc.Kind})
 		}
@@ -1406,6 +1647,7 @@ func main() {
 			}
 		}
 	}
+	timed("delete_pattern", func() { h.deletePatternSite(r.Fork(), cfg.Thorough()) })
 	sum.Notes = append(sum.Notes, fmt.Sprintf("%d names x sites in %.1fs; %d site observations compared with the model", len(names), time.Since(t0).Seconds(), len(h.sites)))
 	sum.Notes = append(sum.Notes, fmt.Sprintf("seconds per site group: %v; files in the tree at the end: %d", tm, len(h.snap())))
 	sum.Notes = append(sum.Notes, "router: fasthttp/router hands the handler one raw path element (PathOriginal, not percent-decoded, never containing '/'); handler-level calls with hand-made parameters are counted under handler_level_escape_not_reachable_through_router and not judged")
